@@ -123,6 +123,14 @@ def body(ctx, case):
                   lambda: "best_hyp()=%r returned state %r; bag=%r; " % (best, h_ret if lm_type == "hash" else "<tensor>", hyps) + desc())
     else:
         ctx.event("tie_for_best")
+    # the same decoder (and LM wrapper) reused: decoding another line in between must not change this line's result
+    other = np.roll(M, 1, axis=0).copy()
+    with np.errstate(all="ignore"):
+        dec(other, model_eos=eos, return_h=True, init_h=copy.deepcopy(init_h))
+        again = ctx.must("decoder_raises", dec, M.copy(), model_eos=eos, return_h=True, init_h=copy.deepcopy(init_h))
+    hyps_again = [(h.transcript, float(h.vis_sc), float(h.lm_sc)) for h in again[0]]
+    ctx.check(sorted(hyps_again) == sorted(hyps), "result_depends_on_decoder_history",
+              lambda: "first %r, after another line %r; " % (sorted(hyps), sorted(hyps_again)) + desc())
     post = boh.posteriors()
     ctx.check(abs(ctc.lse([float(x) for x in post])) < 1e-9, "posteriors_do_not_sum_to_one", desc)
     # 5. scale 0 reproduces LM-free decoding
